@@ -529,3 +529,22 @@ fn c09_promoted_sub_add_operand_order() {
     kani::cover!(matches!(s, Num::BigInt(_)));
     core::mem::forget((r, s));
 }
+
+//@ tier: quick
+//@ funcs: Num::as_pos_usize, Num::as_isize (Int and BigInt arms)
+//@ bounds: any integer value of the i64 range, once stored as a machine integer and once as a big integer
+//@ asserts: integer consumers see the same integer however it is stored: as_isize and the signed position (sign flag, magnitude) agree between Num::Int(v) and Num::BigInt(v) -- in particular for 0 and for negative values
+#[kani::proof]
+#[kani::unwind(8)]
+fn c09_integer_consumers_representation_independent() {
+    let v: i64 = kani::any();
+    let (m, b) = (Num::Int(v as isize), Num::big_int(BigInt::from(v)));
+    assert!(m.as_isize() == b.as_isize());
+    match (m.as_pos_usize(), b.as_pos_usize()) {
+        (Some(p), Some(q)) => assert!(p.0 == q.0 && p.1 == q.1),
+        _ => panic!("an i64 value is a valid position in either representation"),
+    }
+    kani::cover!(v == 0);
+    kani::cover!(v < 0);
+    core::mem::forget((m, b));
+}
